@@ -43,6 +43,31 @@ def window (img : List UInt8) : Nat → Nat → List UInt8
   | _, 0 => []
   | off, n + 1 => byteAt img off :: window img (off + 1) n
 
+/-- `n` bytes from the front of `bs`, 0xff where `bs` has ended -/
+def padTake : List UInt8 → Nat → List UInt8
+  | _, 0 => []
+  | [], n + 1 => 0xff :: padTake [] n
+  | b :: bs, n + 1 => b :: padTake bs n
+
+/-- `window` walks to the offset once instead of once per byte; only the compiled code (the
+model driver) uses this equation, proofs use the definition above -/
+theorem window_eq_padTake (img : List UInt8) (off n : Nat) : window img off n = padTake (img.drop off) n := by
+  induction n generalizing off with
+  | zero => cases h : img.drop off <;> simp [window, padTake]
+  | succ n ih =>
+    rw [window, ih (off + 1)]
+    by_cases hlt : off < img.length
+    · rw [List.drop_eq_getElem_cons hlt]
+      simp [padTake, byteAt, List.getD_eq_getElem?_getD, List.getElem?_eq_getElem hlt]
+    · have h1 : img.drop off = [] := List.drop_eq_nil_of_le (by omega)
+      have h2 : img.drop (off + 1) = [] := List.drop_eq_nil_of_le (by omega)
+      simp [h1, h2, padTake, byteAt, List.getD_eq_getElem?_getD, List.getElem?_eq_none (Nat.le_of_not_lt hlt)]
+
+def windowFast (img : List UInt8) (off n : Nat) : List UInt8 := padTake (img.drop off) n
+
+@[csimp] theorem window_csimp : @window = @windowFast := by
+  funext img off n; exact window_eq_padTake img off n
+
 structure Dev where
   image : List UInt8
   /-- the interface delivers 8 bytes per read command (status bit 0x40), else 4 -/
